@@ -13,6 +13,7 @@ CONSTANTS
   MaxWedges = 1
   FixStopCancels = TRUE
   FixStopUnblocks = TRUE
+  FixStopExpiry = TRUE
   FixStopDrains = TRUE
 VIEW view
 PROPERTIES StopReturns
